@@ -379,6 +379,33 @@ func c10Run(c *Ctx) {
 			}
 		}
 	}
+	// 7. a literal denotes its value in every position, next to any other literal: fractional and whole
+	// literals as subscripts, arguments, elements, operands; numeric literals in programs that also contain
+	// text literals spelling the same number (in either order, either script)
+	for _, lit := range []string{"0", "1", "2", "1.5", "0.5", "2.0", "1.0000000000000002", "0.9999999999999999", "2.5", "\u09e7.\u09eb", "\u09e8", "1.00", "0.0001", "2.9999"} {
+		for _, form := range []string{Print("[10, 20, 30][%s]"), Var("a", "[10, 20, 30]") + " a[%s] = 99; " + Print("a"), Print(BI("remove", "[10, 20, 30]", "%s")), Print("1 << %s"), Print("[%s, %s + 1]"), Print(BI("abs", "%s") + " == %s"),
+			Print("{k: %s}.k"), If("%s", Print(`"truthy"`)), Print(`"" + %s`), Var("i", "%s") + " " + Print("[10, 20, 30][i]")} {
+			src := strings.ReplaceAll(form, "%s", lit) + "\n"
+			if c.Mine() {
+				c10Judge(c, &Case{Gen: "end-to-end", Src: src})
+			}
+		}
+	}
+	for _, pair := range [][2]string{{"1", `"1"`}, {"\u09e7", `"1"`}, {"2.5", `"2.5"`}, {"0", `"0"`}, {"1000000", `"1e+06"`}, {"7", `"7"`}, {"1", "\"\u09e7\""}, {"10", `"10"`}, {"0.5", `"0.5"`}} {
+		n, t := pair[0], pair[1]
+		for _, src := range []string{
+			Lines(Var("choice", t), If("choice == "+t, Print(`"picked"`)), Var("total", "0"), "total = total + "+n+";", "total = total + "+n+";", Print("total"), Print(n+" + "+n), Print("("+n+" + "+n+") - "+n+" == "+n)),
+			Lines(Print(n+" + "+n), Print(t+" + "+t), Print(n+" == "+t), Print("["+n+", "+t+", "+n+"]"), Print(n+" + "+n)),
+			Lines(Fun("never", "", " "+Ret(t)+" "), Print(n+" + "+n), Print(n+" * 2 == "+n+" + "+n), Var("o", "{k: "+t+", j: "+n+"}"), Print("o.j + o.j"), Print("o.k + o.k")),
+		} {
+			if c.Mine() {
+				c10Judge(c, &Case{Gen: "end-to-end", Src: src})
+			}
+			if c.Mine() {
+				c10Judge(c, &Case{Gen: "end-to-end-cli", Mode: "cli", Src: src})
+			}
+		}
+	}
 }
 
 func randDigits(r *Rng, n int) string {
